@@ -6,7 +6,7 @@ import z3
 from ..engine import *
 from ..models import *
 from ..world import GraphWorld, Sym
-from ..ops import WalkOptions, Walk, Validate, ev
+from ..ops import WalkOptions, Walk, Validate, ev, graph_error_fields
 from ..oracle import WalkOracle, Or, And, redirects_regular
 from ..harness import Query
 
@@ -32,6 +32,9 @@ def cubes(tier, has_fc):
                         # quick: the identity of the reported error is decided on the cubes without fast-check preference only
                         out.append({'N': N, 'D': D, 'I': I, 'kind': kind, 'fd': fd, 'cj': cj, 'pfc': pfc, 'valid': False, 'identity': (tier != 'quick') or not pfc})
         out.append({'N': N, 'D': D, 'I': I, 'kind': 1, 'fd': False, 'cj': 0, 'pfc': False, 'valid': True})
+    # per-edge kernel: check_resolution on an arbitrary (module, resolution) pair, larger universe (no walk is unrolled)
+    for fd in (False, True):
+        out.append({'edge': True, 'N': 6 if tier == 'quick' else 8, 'D': 1, 'I': 0, 'fd': fd, 'kind': 0, 'cj': 0, 'pfc': False, 'valid': False})
     if tier == 'quick':
         # one specifier more, for shapes that need four (a module importing through a two-hop redirect chain): dynamic imports followed
         for kind in range(3):
@@ -39,6 +42,7 @@ def cubes(tier, has_fc):
     return out
 
 def cube_name(c):
+    if c.get('edge'): return f"edge_N{c['N']}_fd{int(c['fd'])}"
     if c['valid']: return f"N{c['N']}D{c['D']}I{c['I']}_valid"
     return f"N{c['N']}D{c['D']}I{c['I']}_k{c['kind']}_fd{int(c['fd'])}_cj{c['cj']}_pfc{int(c['pfc'])}"
 
@@ -51,7 +55,54 @@ def known_signatures(w, orc, strict, inplace):
             # validation with follow_dynamic resolves edge targets through ModuleGraph::resolve and inherits its C14 findings
             ('in-place-missing-check-on-irregular-redirects', z3.And(orc.o.fd, z3.Not(redirects_regular(w))))]
 
+def build_edge(mir, cube):
+    """ModuleGraphErrorIterator::check_resolution on an arbitrary module of the graph and an arbitrary resolution: the policy
+    decisions of the statement (failed resolution, HTTPS->HTTP, remote importing a literal file: URL, in-place missing module)"""
+    N = cube['N']
+    sym = Sym()
+    w = GraphWorld(mir, sym, N, 1, 0)
+    eng = Engine(mir, usize_bits=8, unroll=N + 2, unroll_by_fn={'resolve': N + 1})
+    w.configure(eng)
+    opts = WalkOptions(w, sym, 'w', {'kind': 0, 'fd': cube['fd'], 'cj': 0, 'pfc': False})
+    st = mir.structs
+    it = Agg([{'graph': w.ptr, 'follow_dynamic': opts.fd, 'kind': EnumV(opts.kind, {}), 'check_js': EnumV(0, {}), 'prefer_fast_check_graph': FALSE}.get(f, O) for f in st['ModuleEntryIterator']])
+    eit = Agg([{'iterator': it}.get(f, O) for f in st['ModuleGraphErrorIterator']])
+    i = sym.bv('module', 8, lt=N); rkind = sym.bv('resolution_kind', 8, lt=2); text = sym.bv('text', 8, lt=w.ntext); isdyn = sym.bool('is_dynamic')
+    res, (rk, rt, rid) = w.resolution('probe', 0, ('probe',))
+    mpath = lambda k: (w.root, (('f', st['ModuleGraph'].index('module_slots')), ('k', k), ('v', 0), ('f', 0)))
+    mptr = Ptr([(EQ(i, BV(k, 8)), mpath(k)) for k in range(N)])
+    r = eng.call(mir.find('ModuleGraphErrorIterator', 'check_resolution'), [ref_to(eit, 'err-iter'), mptr, EnumV(rkind, {}), ref_to(TextV(text), 'text'), ref_to(res, 'resolution'), isdyn], TRUE)
+    some = opt_is_some(r); e = graph_error_fields(eng, opt_payload(r))
+    from ..ops import graph_error_fields as _g
+    orc = WalkOracle(w, opts, [z3.BoolVal(False)] * N)
+    pre = Or(z3.And(i == k, w.is_module(k)) for k in range(N))       # the referrer is a module of the graph
+    def at_i(f): return Or(z3.And(i == k, f(k)) for k in range(N))
+    tfile = Or(z3.And(text == t, w.text_lower_file[t]) for t in range(w.ntext))
+    sch = lambda u, name: Or(z3.And(u == k, w.scheme[k] == SCHEMES.index(name)) for k in range(N))
+    ref_https, ref_http = sch(i, 'https'), sch(i, 'http')
+    downgrade = z3.And(rk == 1, ref_https, sch(rt, 'http'))
+    local = z3.And(rk == 1, z3.Not(downgrade), z3.Or(ref_https, ref_http), sch(rt, 'file'), tfile)
+    fin = orc.final_of(rt)
+    missing = z3.And(rk == 1, z3.Not(downgrade), z3.Not(local), opts.fd, orc.missing_at(fin))
+    exp_some = z3.Or(rk == 2, downgrade, local, missing)
+    RE = mir.enums['ResolutionError']; MK = mir.enums['ModuleErrorKind']
+    exp_cat = z3.If(missing, z3.BitVecVal(0, 8), z3.If(rkind == 0, z3.BitVecVal(1, 8), z3.BitVecVal(2, 8)))
+    exp_kind = z3.If(missing, z3.If(isdyn, z3.BitVecVal(MK.index('MissingDynamic'), 8), z3.BitVecVal(MK.index('Missing'), 8)),
+                     z3.If(downgrade, z3.BitVecVal(RE.index('InvalidDowngrade'), 8), z3.If(local, z3.BitVecVal(RE.index('InvalidLocalImport'), 8), z3.BitVecVal(RE.index('ResolverError'), 8))))
+    known = [('in-place-missing-check-on-irregular-redirects', z3.And(opts.fd, z3.Not(redirects_regular(w))))]
+    qs = [Query('an-edge-is-reported-iff-the-statement-calls-it-a-failure', z3.And(pre, some != exp_some), known=known),
+          Query('the-report-has-the-right-category-and-kind', z3.And(pre, some, exp_some, z3.Or(e['cat'] != exp_cat, e['kind'] != exp_kind)), known=known),
+          Query('the-report-names-the-referring-range-or-the-missing-specifier', z3.And(pre, some, exp_some, z3.Not(z3.If(missing, e['spec'] == fin, e['rid'] == rid))), known=known),
+          Query('witness-in-place-missing-behind-a-redirect', z3.And(pre, some, missing, rt != fin), expect='sat' if cube['fd'] else 'unsat', kind='witness' if cube['fd'] else 'property'),
+          Query('witness-downgrade', z3.And(pre, some, downgrade), expect='sat', kind='witness')]
+    for fname in sorted({f for f, _ in eng.exceeded}):
+        qs.insert(0, Query('unwinding:' + fname.split('>::')[-1], Or(g for f, g in eng.exceeded if f == fname), kind='unwind'))
+    qs.insert(0, Query('model-capacity', Or(g for _, g in eng.obligations), kind='obligation'))
+    qs.insert(0, Query('no-panic', z3.And(pre, Or(g for _, g in eng.panics))))
+    return eng, w, sym.cons + w.invariant(), qs
+
 def build(mir, cube):
+    if cube.get('edge'): return build_edge(mir, cube)
     N, D, I = cube['N'], cube['D'], cube['I']
     sym = Sym()
     w = GraphWorld(mir, sym, N, D, I)
